@@ -21,6 +21,7 @@ CONSTANTS
   MaxFail = 1
   MaxArm = 1
   MaxReq = 2
+  MaxRestart = 0
 INVARIANTS
   TypeOK
   ForwardSound
